@@ -65,13 +65,13 @@ impl Reader {
 
 //@extract src/reader.rs | impl<'t, D: Distance> Reader<'t, D> | nns_by_leaf
 //@attr #[verifier::exec_allows_no_decreases_clause]
-//@subst
+//@subst count=opt
 <<<
 opt.search_k.map_or(opt.count.saturating_mul(self.roots.len()), NonZeroUsize::get)
 ===
 match opt.search_k { None => opt.count.saturating_mul(self.roots.len()), Some(k__) => k__.get() }
 >>>
-//@subst
+//@subst count=opt
 <<<
 |oversampling| {
 ===
@@ -83,7 +83,7 @@ queue.extend(repeat(OrderedFloat(f32::INFINITY)).zip(self.roots.iter().map(NodeI
 ===
 queue.extend_roots_(OrderedFloat(f32_infinity_()), &self.roots);
 >>>
-//@subst
+//@subst count=opt
 <<<
 opt.candidates.map_or(true, |c| c.contains(item.item))
 ===
